@@ -36,26 +36,73 @@ def case_strategy():
     from hypothesis import strategies as st
 
     @st.composite
+    def _mixin_case(draw):
+        """the create_subclass / mixin pattern of the test-suite: an overloading class combined with plain mixin classes
+        whose method is announced with @extend_super - defined by the mixin itself or only inherited by it"""
+        anns = draw(st.permutations(ANNS))
+        k = [0]
+
+        def leaf(a, prio=0):
+            k[0] += 1
+            return {"id": k[0] - 1, "kind": "leaf", "prio": prio, "ann": a}
+
+        classes = [{"id": 0, "mc": True, "bases": [], "defs": [leaf(anns[0]), leaf(anns[1])], "ext": False, "marked": False,
+                    "style": draw(st.sampled_from(["OvldBase", "metaclass"]))},
+                   {"id": 1, "mc": False, "bases": [], "defs": [leaf(anns[2])], "ext": False, "marked": True, "style": "OvldBase"}]
+        last_plain = 1
+        if draw(st.booleans()):
+            classes.append({"id": 2, "mc": False, "bases": [1], "defs": [], "ext": False, "marked": False, "style": "OvldBase"})
+            last_plain = 2
+        if draw(st.booleans()):
+            i = len(classes)
+            classes.append({"id": i, "mc": False, "bases": [], "defs": [leaf(anns[3])], "ext": False,
+                            "marked": draw(st.booleans()), "style": "OvldBase"})
+            extra = [i]
+        else:
+            extra = []
+        i = len(classes)
+        own = [leaf(anns[4]), leaf(anns[5])] if draw(st.integers(0, 2)) == 0 else []
+        classes.append({"id": i, "mc": True, "bases": [0, last_plain] + extra, "defs": own, "ext": False, "marked": False,
+                        "style": "OvldBase"})
+        if draw(st.booleans()):
+            classes.append({"id": i + 1, "mc": True, "bases": [i], "defs": [leaf(anns[6]), leaf(anns[0], 1)],
+                            "ext": draw(st.booleans()), "marked": False, "style": "OvldBase"})
+        return {"classes": classes}
+
+    @st.composite
     def _case(draw):
+        if draw(st.integers(0, 5)) == 0:
+            return draw(_mixin_case())
         n = draw(st.integers(2, 6))
         classes = []
         mid = 0
         for i in range(n):
             ovld_classes = [c["id"] for c in classes if c["mc"]]
             plain_classes = [c["id"] for c in classes if not c["mc"]]
-            if i == 0 or not ovld_classes or draw(st.integers(0, 5)) == 0:
-                mc = i == 0 or draw(st.integers(0, 2)) > 0
+            if i == 0 or not ovld_classes or draw(st.integers(0, 2)) == 0:
+                mc = i == 0 or draw(st.booleans())
                 bases = []
+                if not mc and plain_classes and draw(st.booleans()):
+                    bases = [draw(st.sampled_from(plain_classes))]  # a plain class deriving from a plain mixin
             else:
                 mc = True
                 k = draw(st.sampled_from([1, 1, 1, 2]))
                 bases = draw(st.lists(st.sampled_from(ovld_classes), min_size=1, max_size=k, unique=True))
                 bases.sort(reverse=True)
-                if plain_classes and draw(st.integers(0, 2)) == 0:
-                    bases.append(draw(st.sampled_from(plain_classes)))
+                if plain_classes and draw(st.booleans()):
+                    for pc in draw(st.lists(st.sampled_from(plain_classes), min_size=1, max_size=2, unique=True)):
+                        bases.append(pc)
+            # never list a class together with one of its own ancestors (no consistent MRO)
+            def ancestors(b):
+                out = set()
+                for x in classes[b]["bases"]:
+                    out |= {x} | ancestors(x)
+                return out
+
+            bases = [b for b in bases if not any(b in ancestors(o) for o in bases if o != b)]
             defs = []
             if not mc:
-                ndefs = 1
+                ndefs = 0 if (bases and draw(st.booleans())) else 1
             else:
                 ndefs = draw(st.sampled_from([0, 2, 2, 3, 4] if bases else [2, 2, 3, 4]))
             ext = bool(bases) and ndefs > 0 and draw(st.integers(0, 3)) > 0
@@ -77,7 +124,8 @@ def case_strategy():
                 mid += 1
             if mc and len(defs) == 1 and not ext:
                 defs = []  # a single undecorated definition stays a plain function: not generated
-            classes.append({"id": i, "mc": mc, "bases": bases, "defs": defs, "ext": ext and bool(defs),
+            marked = (not mc) and bool(defs) and draw(st.integers(0, 3)) > 0  # a mixin class announcing `@extend_super`
+            classes.append({"id": i, "mc": mc, "bases": bases, "defs": defs, "ext": ext and bool(defs), "marked": marked,
                             "style": draw(st.sampled_from(["OvldBase", "metaclass"]))})
         return {"classes": classes}
 
@@ -107,7 +155,7 @@ def render_class(c, classes):
     lines.append(f"    tag = {c['id']}")
     decorated = any(m.get("prio") for m in c["defs"])
     for j, m in enumerate(c["defs"]):
-        if c["ext"] and j == 0:
+        if (c["ext"] or c.get("marked")) and j == 0:
             lines.append("    @extend_super")
         elif m.get("also_marked") and not decorated:
             lines.append("    @extend_super")
@@ -136,38 +184,75 @@ def overlay(lists):
 
 
 def effective(classes):
-    """class id -> (effective methods of attribute f, is_plain_function)"""
+    """class id -> effective methods of attribute f (None = no such attribute).  KIND[id] says what the attribute is:
+    "ovld" (an overloaded method), "flagged" (a plain mixin's method announced with @extend_super: an overloaded
+    function that asks to be merged), "plain" (an ordinary function: no dispatch at all).
+    Follows ovld's documented class rules: see the module docstring; the multi-base merge at class creation
+    (tests/test_ovld.py::test_multiple_inherit_2) happens when a LATER base carries a flagged method."""
     eff = {}
+    KIND.clear()
+    MERGED.clear()
+    by_id = {c["id"]: c for c in classes}
     for c in classes:
-        base_effs = [eff[b] for b in c["bases"] if eff[b] is not None]
-        if not c["defs"]:
-            # inherited through the MRO; a plain function inherited from a plain mixin stays a plain function
-            eff[c["id"]] = base_effs[0] if base_effs else None
-            PLAIN[c["id"]] = PLAIN.get(next((b for b in c["bases"] if eff[b] is not None), None), False)
+        cid = c["id"]
+        with_f = [b for b in c["bases"] if eff[b] is not None]
+        if not c["mc"]:
+            if c["defs"]:
+                eff[cid] = list(c["defs"])
+                KIND[cid] = "flagged" if c.get("marked") else "plain"
+            else:
+                eff[cid] = eff[with_f[0]] if with_f else None
+                KIND[cid] = KIND[with_f[0]] if with_f else None
+            continue
+        # class creation pre-merge: the first overloaded base + later FLAGGED bases + plain-function bases
+        ovl = [b for b in with_f if KIND[b] in ("ovld", "flagged")]
+        pre = None
+        if len(ovl) >= 2 and any(KIND[b] == "flagged" for b in ovl[1:]):
+            later = [b for b in ovl[1:] if KIND[b] == "flagged"]
+            plains = [b for b in with_f if KIND[b] == "plain"]
+            pre = overlay([eff[ovl[0]]] + [eff[b] for b in later] + [eff[b] for b in plains])
+        if pre is not None:
+            eff[cid] = overlay([pre, c["defs"]])
+            KIND[cid] = "ovld"
+            MERGED.add(cid)
+        elif not c["defs"]:
+            eff[cid] = eff[with_f[0]] if with_f else None
+            KIND[cid] = KIND[with_f[0]] if with_f else None
         elif c["ext"]:
-            eff[c["id"]] = overlay(base_effs + [c["defs"]])
-            PLAIN[c["id"]] = False
+            eff[cid] = overlay([eff[b] for b in with_f] + [c["defs"]])
+            KIND[cid] = "ovld"
         else:
-            eff[c["id"]] = list(c["defs"])
-            PLAIN[c["id"]] = not c["mc"]
+            eff[cid] = list(c["defs"])
+            KIND[cid] = "ovld"
+    PLAIN.clear()
+    PLAIN.update({k: v == "plain" for k, v in KIND.items()})
     return eff
 
 
 PLAIN = {}
+KIND = {}
+MERGED = set()
 
 
 def unsupported(classes):
     """shapes whose meaning the docs do not fix -> the class (and its descendants) is not asserted"""
     bad = set()
     eff = effective(classes)
+    kind = dict(KIND)
     for c in classes:
         if any(b in bad for b in c["bases"]):
             bad.add(c["id"])
             continue
+        if not c["mc"]:
+            continue
         with_f = [b for b in c["bases"] if eff[b] is not None]
-        if len(with_f) >= 2 and not c["ext"]:
-            bad.add(c["id"])  # several bases carrying overloads, no extend_super in the subclass
-        if c["ext"] and len(with_f) >= 2:
+        ovl = [b for b in with_f if kind[b] in ("ovld", "flagged")]
+        merged = len(ovl) >= 2 and any(kind[b] == "flagged" for b in ovl[1:])
+        if len(with_f) >= 2 and not c["ext"] and not merged:
+            bad.add(c["id"])  # several bases carrying overloads, nothing asks for a merge
+        if merged and c["defs"] and c["ext"]:
+            bad.add(c["id"])  # a pre-merged attribute AND an own @extend_super definition: not documented
+        if (c["ext"] or merged) and len(with_f) >= 2:
             seen = {}
             for b in with_f:
                 for m in eff[b]:
@@ -175,8 +260,6 @@ def unsupported(classes):
                     if k in seen and seen[k] != m["id"]:
                         bad.add(c["id"])  # identical signature from two different bases
                     seen[k] = m["id"]
-        if c["ext"] and not with_f:
-            pass
     return bad
 
 
@@ -242,8 +325,8 @@ def run_case(spec):
             for d in classes[: ci + 1]:
                 if d["id"] in bad or eff[d["id"]] is None or PLAIN.get(d["id"]):
                     continue
-                if not d["mc"] and not any(d["id"] in x["bases"] for x in classes):
-                    continue
+                if not d["mc"]:
+                    continue  # plain mixin classes are only observed through the overloading classes that use them
                 inst = glb[f"C{d['id']}"]()
                 obs = []
                 for vs in VALUES:
@@ -288,6 +371,11 @@ def run_case(spec):
                 res.label("multiple-bases")
         if bad:
             res.label("has-unsupported-class(skipped)")
+        effective(classes)
+        if MERGED - bad:
+            res.label("multi-base-merge-with-marked-mixin")
+        if any(KIND.get(c["id"]) == "flagged" for c in classes):
+            res.label("has-marked-mixin-class")
     finally:
         for f in files:
             linecache.cache.pop(f, None)
